@@ -10,6 +10,12 @@
 //!      exactly those lines; parser error spans lie inside the text on the line of the first bad
 //!      token; rendering never panics; `debug` prefix = line where the debug expression starts;
 //!      every instruction of every compiled program has a span inside the text.
+//!
+//! c12_parts/chains.rs   multi-line chains: generator, (K1) instruction spans of real chunks vs
+//!                       `SrcMap.compile` on the chain's node nesting, planted faults at every node
+//! c12_parts/resume.rs   faults that are the first instruction after a (re-)entry: register-only
+//!                       operations, generator consumers, callback / parameter faults
+//! c12_parts/brackets.rs breaks inside multi-line bracketed constructs (bad token on its own line)
 use koto_bytecode::{Chunk, CompilerSettings, DebugInfo, InstructionReader, ModuleLoader};
 use koto_parser::{format_source_excerpt, Position, Span};
 use koto_runtime::{prelude::*, InstructionFrame, KotoVmSettings, Ptr, PtrMut, Result as RtResult};
@@ -2381,7 +2387,7 @@ fn main() {
     let args = Args::parse();
     let mut rep = Report::new("C12", &args);
     rep.max_samples = 12;
-    rep.rule = "cases: (a) random DebugInfo push sequences with all lookups 0..max+2 [non-trivial: >= 3 pushes]; (b) format_source_excerpt on random texts x random spans incl. out-of-guard ones [non-trivial: >= 2 lines or outside the guard]; (c) generated programs with a single-line fault planted at a known line inside 0-4 nested calls (call line = line of the callee token; call expressions may span lines) after random preceding constructs [non-trivial: >= 1 call level or >= 8 lines]; levels of the call chain may run inside callbacks of core-library functions (eager fold/any/all/find/position; lazy each/keep with their consumer), predicted by Trace.predictSegs; (d) one-token syntactic breaks of such programs with an unambiguous first bad token, and end-of-input cuts with at most one trailing line break (expected line = last line with text); (e) programs with single- and multi-line debug expressions; (f) a fault inside a function of an imported module (two chunks with their own texts and paths), called through 1-3 call sites in module and main script. The language guide does not say which line a failing multi-line expression reports, so planted faults are single-line expressions and for multi-line call expressions only the start line (callee token) is fixed, the reported span must stay inside the call expression. distinct = distinct request/program texts".into();
+    rep.rule = "cases: (a) random DebugInfo push sequences with all lookups 0..max+2 [non-trivial: >= 3 pushes]; (b) format_source_excerpt on random texts x random spans incl. out-of-guard ones [non-trivial: >= 2 lines or outside the guard]; (c) generated programs with a single-line fault planted at a known line inside 0-4 nested calls (call line = line of the callee token; call expressions may span lines) after random preceding constructs [non-trivial: >= 1 call level or >= 8 lines]; levels of the call chain may run inside callbacks of core-library functions (eager fold/any/all/find/position; lazy each/keep with their consumer), predicted by Trace.predictSegs; (d) one-token syntactic breaks of such programs with an unambiguous first bad token, and end-of-input cuts with at most one trailing line break (expected line = last line with text); (e) programs with single- and multi-line debug expressions; (f) a fault inside a function of an imported module (two chunks with their own texts and paths), called through 1-3 call sites in module and main script. The language guide does not say which line a failing multi-line expression reports, so planted faults are single-line expressions and for multi-line call expressions only the start line (callee token) is fixed, the reported span must stay inside the call expression. (g) planted-fault kinds added for seeded C12-mut1..3: a failing node at every position of a (mostly multi-line) chain `root` / `.id` / `.\"str\"` with `[i]`, `(call)` and `?` suffixes, with and without `?` after each node, also as assignment target (expected line = the line of the access the node is attached to), call sites that are nodes of multi-line chains, failing operations on registers only (locals / parameters) so that the fault is the first instruction of its statement, functions that are generators whose key statement follows 0-3 `yield`s and whose call site is a consumer (for loop, next(), to_tuple/to_list/count/consume/last, lazy adaptors, unpacking, iterator.next, match) predicted as one more interpreter entry by Trace.predictSegs, the fault itself inside a core-library callback (first instruction of the callback); (h) K1 on real chunks: for generated chains the spans of the Access/AccessString/Index/Call/JumpIfNull instructions in the compiled chunk's source map vs SrcMap.compile on the chain's nesting structure and vs the line of each node [non-trivial: >= 3 nodes]; (i) breaks inside multi-line bracketed constructs (call args, chained calls, list, tuple, map, parameter list, nested, index on one line): element after a missing comma, `then`/`else`, `=`, mismatched closer, on a line of their own or after the previous element, after 0-3 well-formed elements (expected line = the bad token's line; for `=` directly after a literal on the previous line the assignment's target is the offending token); (j) debug statements directly after a `yield` in generators consumed completely, debug of a local/parameter (no instruction before the debug instruction). distinct = distinct request/program texts".into();
     let drv = Driver::spawn(&args.driver);
     let open: Vec<String> = rep.known_open().iter().filter_map(|e| e["id"].as_str().map(|s| s.to_string())).collect();
     let mut cx = Ctx { rep, drv, k_fail: 0, d_fail: 0, known_hits: Default::default(), open, verbose: args.replay.is_some(), mod_counter: 0 };
@@ -2436,22 +2442,40 @@ fn main() {
     let t = args.thorough();
     let (n_map, n_exc, n_pl, n_br, n_dbg, n_mod) = if t { (40000, 40000, 60000, 40000, 12000, 6000) } else { (3000, 3000, 4000, 3000, 1000, 400) };
     let n_chain = if t { 20000 } else { 1500 };
+    // developer aid: `--only=<family>` runs one family (same cases as in the full run)
+    let only: Option<String> = args.extra.iter().find_map(|x| x.strip_prefix("--only=")).map(String::from);
+    let on = |f: &str| only.as_deref().is_none_or(|o| o == f);
     let mut r1 = rng.fork();
-    cx.srcmap(&mut r1, n_map);
+    if on("srcmap") {
+        cx.srcmap(&mut r1, n_map);
+    }
     let mut r2 = rng.fork();
-    cx.excerpt_direct(&mut r2, n_exc);
+    if on("excerpt") {
+        cx.excerpt_direct(&mut r2, n_exc);
+    }
     let mut r3 = rng.fork();
-    cx.planted(&mut r3, n_pl);
+    if on("planted") {
+        cx.planted(&mut r3, n_pl);
+    }
     let mut r4 = rng.fork();
-    cx.broken(&mut r4, n_br);
+    if on("broken") {
+        cx.broken(&mut r4, n_br);
+    }
     let mut r5 = rng.fork();
-    cx.debug(&mut r5, n_dbg);
+    if on("debug") {
+        cx.debug(&mut r5, n_dbg);
+    }
     let mut r6 = rng.fork();
-    cx.modules(&mut r6, n_mod);
+    if on("modules") {
+        cx.modules(&mut r6, n_mod);
+    }
     let mut r7 = rng.fork();
-    cx.chainmaps(&mut r7, n_chain);
+    if on("chainmaps") {
+        cx.chainmaps(&mut r7, n_chain);
+    }
 
     cx.rep.note("mutation pilot (2026-09-26, scratch copy of /repo outside /repo and /verif, quick tier, seed 1; see requests/C12.md): get_source_span `<` for `<=` -> K:C12:SrcMap.lookup + C12:trace-lines; trace pushed outermost first -> C12:trace-lines; pop_span dropped at each of 11 sites of compiler.rs (nested fn args, assign target, type hints, catch arg/block, map entry, match arm, for iterable) -> C12:trace-lines each; debug prefix from span.end -> C12:debug-prefix; excerpt underline off by one -> K:C12:Excerpt.render; DebugInfo::push merging on equal start only -> K:C12:SrcMap.lookup; unchanged copy -> exit 0");
+    cx.rep.note("seeded changes (2026-09-26, tools/mutcheck.sh quick seed 1, and per family with --only=<family> against a scratch copy, corpus off): C12-mut1 (compile_chain span push skipped before a final `?`) -> C12:trace-lines on 38 planted chain programs, C12:chain-node-line on 283 + K:C12:SrcMap.compile on 36 of 1500 chains; C12-mut2 (instruction_ip set in push_frame only; patch rebased in requests/C12-mut2-rebased.diff) -> C12:trace-lines on 183 planted programs (fault directly after a yield), C12:debug-prefix on 105 of 1000 debug programs; C12-mut3 (parse_parenthesized_args peeks the closer) -> C12:compile-error-line on 132 of 3000 broken variants; unchanged tree -> exit 0 for seeds 1-8 quick and seed 1 thorough");
     let kh = cx.known_hits.clone();
     for (id, n) in kh {
         cx.rep.bump_by(&format!("attributed_to_{id}"), n);
